@@ -6,13 +6,15 @@ import (
 	"os"
 	"testing"
 	"time"
+	"verif/engine/racectl"
 )
 
 // SuiteItem is one scenario with its deviation bound.
 type SuiteItem struct {
 	Scn   *Scenario
 	Bound int
-	Split int // deviation level at which sub-trees are distributed over shards
+	Split int  // deviation level at which sub-trees are distributed over shards
+	Whole bool // the scenario is explored by one shard alone (many small scenarios)
 }
 
 type ShardOut struct {
@@ -49,6 +51,10 @@ func RunSuite(t *testing.T, items []SuiteItem) {
 		if err := os.WriteFile(p, b, 0o644); err != nil {
 			t.Fatal(err)
 		}
+		if racectl.Enabled && t.Failed() {
+			// the sub-tests of executions with a race have failed; the result file carries them as violations
+			os.Exit(0)
+		}
 	} else {
 		LogStats(t, out.Stats)
 	}
@@ -79,8 +85,22 @@ func ExploreAll(t *testing.T, items []SuiteItem, budget time.Duration) []*Stats 
 		if only != "" && it.Scn.Name != only {
 			continue
 		}
+		sh, nsh := shard, n
+		if it.Whole {
+			// small scenarios are dealt out to the shards whole
+			if n > 1 && i%n != shard {
+				continue
+			}
+			sh, nsh = 0, 1
+		}
 		remain := time.Until(end)
-		share := remain / time.Duration(len(items)-i)
+		mine := 0
+		for j := i; j < len(items); j++ {
+			if !items[j].Whole || n <= 1 || j%n == shard {
+				mine++
+			}
+		}
+		share := remain / time.Duration(mine)
 		if share < time.Second {
 			share = time.Second
 		}
@@ -92,7 +112,7 @@ func ExploreAll(t *testing.T, items []SuiteItem, budget time.Duration) []*Stats 
 			prog.Truncate(0)
 			prog.WriteAt([]byte(fmt.Sprintf("%80s\n%s\n", "", it.Scn.Name)), 0)
 		}
-		e := &Explorer{T: t, Scn: it.Scn, Bound: it.Bound, Shard: shard, NShards: n, SplitLevel: split,
+		e := &Explorer{T: t, Scn: it.Scn, Bound: it.Bound, Shard: sh, NShards: nsh, SplitLevel: split,
 			Deadline: time.Now().Add(share), ReplayEvery: 97, Progress: prog}
 		stats = append(stats, e.Explore())
 	}
